@@ -1,0 +1,39 @@
+//go:build verif
+
+package extension
+
+// Contracts for gvc (the /verif condition generator). Comment-only: nothing here is compiled
+// into the library; the file exists only under the build tag "verif".
+
+/*@
+// ---- interface contracts used by the extension code (assumed for every implementation) ----
+ghost srcLenOf(r addr) int            // length of the source a Reader reads
+ghost var ctxState() int              // the private state of a parser.Context
+
+iface text.Reader.Source
+  ensures len(result) == srcLenOf(recv)
+  modifies nothing
+iface parser.Context.ComputeIfAbsent
+  modifies ctxState
+iface parser.Context.Set
+  modifies ctxState
+iface parser.Context.Get
+  modifies nothing
+
+// ---- tables (C17): every body row has exactly as many cells as there are columns ----
+func (*tableParagraphTransformer).parseRow
+  uses nodeModel
+  requires WF() && reader != nil && pc != nil
+  requires 0 <= segment.Start && segment.Start <= segment.Stop && segment.Stop <= srcLenOf(reader) && segment.Padding >= 0
+  ensures WF()
+  ensures [nonnil] result != nil
+  ensures [width] !isHeader ==> (klen(asnode(result)) == len(alignments) && cnt(asnode(result)) == len(alignments))
+  loop 0 inv WF() && row != nil && klen(asnode(row)) == i && 0 <= i && (!isHeader ==> i <= len(alignments))
+  loop 0 inv 0 <= pos && limit <= len(line) && len(source) == srcLenOf(reader)
+  loop 0 inv 0 <= segment.Start && segment.Start + len(line) <= len(source) && segment.Padding >= 0
+  loop 1 inv WF() && row != nil && klen(asnode(row)) == i && 0 <= i && (!isHeader ==> i <= len(alignments))
+  loop 1 inv 0 <= pos && pos <= closure && closure <= limit && limit <= len(line) && len(source) == srcLenOf(reader)
+  loop 1 inv 0 <= segment.Start && segment.Start + len(line) <= len(source) && segment.Padding >= 0
+  loop 1 inv node != nil && isoNew(asnode(node)) && asnode(node) != asnode(row)
+  loop 2 inv WF() && row != nil && klen(asnode(row)) == i && (!isHeader ==> i <= len(alignments))
+@*/
